@@ -278,7 +278,7 @@ class Scenario:
                 self._subscribe(svc)
                 self.events.append({"ev": "Subscribe", "svc": svc, "out": [{k: v for k, v in d.items() if k != "cb"} for d in self.deliveries]})
                 continue
-            if rng.random() < 0.07 and self.events:
+            if rng.random() < 0.07 and self.events and not getattr(self, "cachefault", False):
                 # the node restarts while the introducer is unreachable: a new client object on the same cache file, the same
                 # subscriptions, and what IntroducerClient does when its connection attempt fails (connect_failed): the cached
                 # announcements are used.  They are the stored announcements from now on.
@@ -324,16 +324,28 @@ class Scenario:
             counter = Counter(ic_mod.unsign_from_foolscap.orig if isinstance(ic_mod.unsign_from_foolscap, Counter) else ic_mod.unsign_from_foolscap)
             ic_mod.unsign_from_foolscap = counter
             raised = {"exc": "", "at": 0}
+            # in a "cachefault" history the announcement cache cannot be written while some batches arrive (its directory is
+            # gone: full disk, read-only or missing private/): what the client knows and tells its subscribers is the same
+            # as ever; the cache file is not looked at from the first such batch on (and the node is not restarted)
+            broken = getattr(self, "cachefault", False) and rng.random() < 0.35
+            if broken:
+                os.rename(self.dir, self.dir + ".off")
+                self.cache_unreliable = True
             try:
                 self.client.remote_announce_v2(tuples)
             except Exception as e:       # noqa: BLE001 - recorded, judged by the Spec through its consequences
                 raised = {"exc": type(e).__name__, "at": counter.n}
             finally:
                 ic_mod.unsign_from_foolscap = counter.orig
+                if broken:
+                    if os.path.exists(self.dir):          # (something re-created it meanwhile)
+                        shutil.rmtree(self.dir, ignore_errors=True)
+                    os.rename(self.dir + ".off", self.dir)
             self.commit(items)
+            nostore = getattr(self, "cache_unreliable", False)
             self.events.append({"ev": "Batch", "items": items,
                                 "out": [{k: v for k, v in d.items() if k != "cb"} for d in self.deliveries],
-                                "store": self.read_store(), "raised": raised})
+                                "store": [] if nostore else self.read_store(), "raised": raised, "nostore": nostore, "cachewrite": "fails" if broken else "ok"})
 
     def trace(self):
         return {"consts": {"services": SERVICES, "keys": sorted(self.keys) + ["unknown", "mismatch"], "subs0": self.subs0,
@@ -358,6 +370,7 @@ def main():
     for i in range(a.n):
         rng = random.Random("C34/%s/%d/%d" % (a.profile, a.seed, i))
         sc = Scenario(rng, os.getcwd(), a.profile, a.events)
+        sc.cachefault = (i % 4 == 3)
         try:
             sc.run()
             traces.append(sc.trace())
